@@ -660,7 +660,7 @@ static void s3_child(void *arg)
         decoder_t *d;
         names[4] = sd ? "sendump" : "mixture_weights";
         for (k = 0; k < 5; k++)
-            if ((fb[k] = load_src(w[4 + 2 * k], w[5 + 2 * k], &fl[k])) == NULL) { emit(" bad-src"); return; }
+            if ((fb[k] = load_src(w[(k < 4 ? 4 : 5) + 2 * k], w[(k < 4 ? 5 : 6) + 2 * k], &fl[k])) == NULL) { emit(" bad-src"); return; }
         config_set_str(cfg, "loglevel", "ERROR");
         config_set_str(cfg, "feat", "1s_c_d_dd");
         if (strchr(w[3], ',')) config_set_str(cfg, "svspec", "0-12/13-25/26-38");
